@@ -297,13 +297,15 @@ func TestC07(t *testing.T) {
 		}
 	}
 	progs = progsSaved
+	// each part has its own wall-clock budget so that a slow machine cannot starve the later parts
+	lakeDeadline := rep.Deadline(4*time.Minute, 30*time.Minute)
 	var lakeCases int64
 	type lakeLayout struct {
 		keySpec string
 		thresh  int64
 	}
 	// one value per object (threshold 1), and one object per load spanning a key range
-	for _, lay := range []lakeLayout{{"k:asc", 1}, {"k:desc", 1}, {"k:asc", 0}, {"k:desc", 0}} {
+	for _, lay := range []lakeLayout{{"k:desc", 0}, {"k:asc", 0}, {"k:desc", 1}, {"k:asc", 1}} {
 		keySpec := lay.keySpec
 		if lay.thresh == 0 {
 			keySpec += " object-per-load"
@@ -314,7 +316,7 @@ func TestC07(t *testing.T) {
 			t.Fatal(err)
 		}
 		parallel(len(lakeProgs), func(pi int) {
-			if time.Now().After(deadline) {
+			if time.Now().After(lakeDeadline) {
 				mu.Lock()
 				past = true
 				mu.Unlock()
@@ -341,7 +343,7 @@ func TestC07(t *testing.T) {
 	}
 	run.Set("lake_cases", lakeCases)
 	// ---- the repository's own program corpus ---------------------------------------
-	corpusN, corpusSkipped := c07Corpus(t, ctx, run, report, &disagreements, &mu, deadline)
+	corpusN, corpusSkipped := c07Corpus(t, ctx, run, report, &disagreements, &mu, rep.Deadline(3*time.Minute, 20*time.Minute))
 	run.Set("corpus_programs", corpusN)
 	run.Set("corpus_skipped_not_compilable_or_no_input", corpusSkipped)
 	run.Set("programs", int64(len(progs)+len(lakeProgs)*2)+int64(corpusN))
